@@ -1127,7 +1127,7 @@ class DCM(np.ndarray):
             roll-pitch-yaw angles.
         """
         phi = np.arctan2(self.A[1, 2], self.A[2, 2])    # Roll Angle
-        theta = -np.arcsin(self.A[0, 2])                # Pitch Angle
+        theta = -np.arcsin(np.clip(self.A[0, 2], -1.0, 1.0))  # Pitch Angle
         psi = np.arctan2(self.A[0, 1], self.A[0, 0])    # Yaw Angle
         return np.array([phi, theta, psi])
 
